@@ -29,6 +29,14 @@ Example C03_example :
   HandN 6 [layout 12 3; layout 12 2; layout 1 1; layout 10 3; layout 9 3; layout 8 0].
 Proof. split; apply handN_b; vm_compute; reflexivity. Qed.
 
+From CKC Require Import Model.Proj Proofs.ProjC03.
+(* the `wit` line of the correspondence check is the constant `1 1 1 1` on six / seven distinct real cards: the
+   reported hand is drawn from the input, duplicate-free, non-increasing and re-ranks to the reported value *)
+Theorem C03_projection : forall chk n ws,
+  (n = 6 \/ n = 7)%nat -> HandN n ws -> proj_wit chk ws = Ok [true; true; true; true].
+Proof. exact proj_wit_const. Qed.
+
 Print Assumptions C03_five_identity.
 Print Assumptions C03_five.
 Print Assumptions C03_witness.
+Print Assumptions C03_projection.
